@@ -10,12 +10,15 @@
                  leading or trailing, TAB (unless it is the delimiter), NUL, U+0085 / U+2028 / U+2029 do NOT
                  cause quoting.  csv_writerow: a record with at least one field whose text is empty (exactly: one
                  empty field) is written as two quote characters; a record without fields is the bare terminator.
-   Reader side   src/stingray/workbook.py CSVUnpacker.open: name.open(mode='r') - text mode with the DEFAULT
-                 newline handling (universal newlines: CR LF and CR arrive as LF; [text_lines] = Workbook.text_lines), NOT
-                 the newline='' the csv documentation asks for; instance_iter: csv.reader(the_file, **kwargs),
-                 one list of str per record: [csv_reader] / [csv_read].
-                 The same reader over a file opened with newline='' (lines end at CR LF, CR or LF and keep their
-                 line end): [csv_reader_raw]; over any list of str: [read_records].
+   Reader side   src/stingray/workbook.py CSVUnpacker.open opens the file in text mode; whether with newline='' (as the
+                 csv documentation asks: line ends reach the reader as they are) or with the default newline handling
+                 (universal newlines: CR LF and CR arrive as LF) is READ FROM THE SOURCE on every run
+                 (Gen/CsvOpenParams.csv_newline_raw, harness/t1_c03b.py).  instance_iter: csv.reader(the_file, **kwargs),
+                 one list of str per record: [lib_reader] / [lib_read] = [csv_reader_raw] / [csv_read_raw] when the
+                 parameter is true (the tree from commit aa3b8fc on), [csv_reader] / [csv_read] when it is false (before).
+                 csv.reader over a mode-r file ([text_lines] = Workbook.text_lines): [csv_reader]; over a file opened
+                 with newline='' (lines end at CR LF, CR or LF and keep their line end): [csv_reader_raw]; over any
+                 list of str: [read_records].
                  Reader_iternext: parse_reset, then line after line from the iterator, every character through
                  parse_process_char and, at the end of every line, the pseudo character EOL, until the state is
                  START_RECORD again; when the iterator is exhausted inside a record: if the field buffer is not
@@ -30,6 +33,7 @@ From Coq Require Import NArith List Bool.
 Import ListNotations.
 Require Import SR.Base.Res.
 Require SR.Model.Workbook.
+Require Import SR.Gen.CsvOpenParams.
 Open Scope N_scope.
 
 Definition text := list N.
@@ -212,7 +216,7 @@ Fixpoint raw_lines_from (cur : text) (s : text) : list text :=
 
 Definition raw_lines (s : text) : list text := raw_lines_from [] s.
 
-(* csv.reader over the file as CSVUnpacker opens it (mode r) *)
+(* csv.reader over the file opened in mode r with the default newline handling *)
 Definition csv_reader (d : N) (file : text) : list (list text) * option exn :=
   read_records d reset (text_lines file).
 
@@ -227,6 +231,11 @@ Definition outcome (p : list (list text) * option exn) : res (list (list text)) 
 Definition csv_read (d : N) (file : text) : res (list (list text)) := outcome (csv_reader d file).
 Definition csv_read_raw (d : N) (file : text) : res (list (list text)) := outcome (csv_reader_raw d file).
 
+(* what the library's unpacker delivers: the reader over the file as CSVUnpacker.open opens it *)
+Definition lib_reader (d : N) (file : text) : list (list text) * option exn :=
+  if csv_newline_raw then csv_reader_raw d file else csv_reader d file.
+Definition lib_read (d : N) (file : text) : res (list (list text)) := outcome (lib_reader d file).
+
 (* ------------------------------------------------------------------ domains *)
 (* csv.writer accepts any one-character delimiter; the reader tells it from the quote character and from
    the line ends only when it is none of them *)
@@ -235,7 +244,7 @@ Definition delim_ok (d : N) : bool := negb (d =? QUOTE) && negb (d =? CR) && neg
 Definition within_limit (c : text) : bool := N.of_nat (length c) <=? field_limit.
 Definition no_cr (c : text) : bool := forallb (fun x => negb (x =? CR)) c.
 
-(* what survives the file as the library opens it: any rows (also none, also rows without cells), cells of any
+(* what survives a file read in mode r with the default newline handling: any rows (also none, also rows without cells), cells of any
    code points except the carriage return, at most field_limit characters long *)
 Definition cell_ok (c : text) : bool := no_cr c && within_limit c.
 Definition table_ok (T : list (list text)) : bool := forallb (forallb cell_ok) T.
